@@ -1,3 +1,104 @@
-From JT Require Import model.Check.
-Theorem C01_placeholder : True. Proof. exact I. Qed.
-Print Assumptions C01_placeholder.
+(* C01 -- an array check decides shape exactly as the dim-string language says.
+   Statements only; proofs in proofs/BroadcastFacts.v, proofs/CheckFacts.v.
+   Reading guide: `gamma m e` = assignment e (sizes for names, shapes for *names) is
+   consistent with the context's bindings m; `use_sat ... e d sh` = the documented
+   meaning of dims d for shape sh under e; the theorems say that an accepted check
+   narrows the consistent assignments by exactly that meaning and a rejected check
+   means no consistent assignment has it -- for every rank, size and prior context. *)
+From JT Require Import model.Check proofs.BroadcastFacts proofs.DimLangFacts proofs.CheckFacts.
+Open Scope string_scope.
+
+Theorem C01_broadcast_is_lub : forall a b s : list Z,
+  (ble a s /\ ble b s) <-> exists l, bcast a b = Some l /\ ble l s.
+Proof. exact bcast_lub. Qed.
+Print Assumptions C01_broadcast_is_lub.
+
+Theorem C01_slices_partition : forall (sh : list Z) (i k : nat),
+  (i + k <= length sh)%nat ->
+  sh = (firstn i sh ++ firstn (length sh - k - i) (skipn i sh) ++ skipn (length sh - k) sh)%list /\
+  length (firstn i sh) = i /\
+  length (firstn (length sh - k - i) (skipn i sh)) = (length sh - k - i)%nat /\
+  length (skipn (length sh - k) sh) = k.
+Proof. exact slices_partition. Qed.
+Print Assumptions C01_slices_partition.
+
+Theorem C01_axes_accept : forall lbl st args dl sh sm sm',
+  length dl = length sh ->
+  check_dims lbl st args dl sh sm = (COk, sm') ->
+  forall r, agrees sm' r <-> agrees sm r /\ Forall2 (dim_sat lbl st args r) dl sh.
+Proof. exact check_dims_ok. Qed.
+Print Assumptions C01_axes_accept.
+
+Theorem C01_axes_reject : forall lbl st args dl sh sm sm',
+  check_dims lbl st args dl sh sm = (CFail, sm') ->
+  forall r, agrees sm r -> ~ Forall2 (dim_sat lbl st args r) dl sh.
+Proof. exact check_dims_fail. Qed.
+Print Assumptions C01_axes_reject.
+
+Theorem C01_variadic_accept : forall name bc mid vm vm',
+  check_variadic name bc mid vm = (COk, vm') ->
+  forall rv, agreesv vm' rv <-> agreesv vm rv /\ var_sat rv name bc mid.
+Proof. exact check_variadic_ok. Qed.
+Print Assumptions C01_variadic_accept.
+
+Theorem C01_variadic_reject : forall name bc mid vm vm',
+  check_variadic name bc mid vm = (CFail, vm') ->
+  forall rv, agreesv vm rv -> ~ var_sat rv name bc mid.
+Proof. exact check_variadic_fail. Qed.
+Print Assumptions C01_variadic_reject.
+
+Theorem C01_shape_accept : forall lbl st d sh m m',
+  wf_dims d ->
+  check_shape lbl st d sh m = (COk, m') ->
+  margs m' = margs m /\
+  forall e, gamma m' e <-> gamma m e /\ use_sat lbl st (margs m) e d sh.
+Proof. exact check_shape_ok. Qed.
+Print Assumptions C01_shape_accept.
+
+Theorem C01_shape_reject : forall lbl st d sh m m',
+  wf_dims d ->
+  check_shape lbl st d sh m = (CFail, m') ->
+  forall e, gamma m e -> ~ use_sat lbl st (margs m) e d sh.
+Proof. exact check_shape_fail. Qed.
+Print Assumptions C01_shape_reject.
+
+(* the whole isinstance: array type (or, for Any, the two attributes), dtype, shape *)
+Theorem C01_isinstance_true : forall lbl st a v m s s',
+  wf_annot a ->
+  instancecheck false lbl st a v (m :: s) = (Acc, s') ->
+  exists m', s' = m' :: s /\ margs m' = margs m /\
+             forall e, gamma m' e <-> gamma m e /\ full_sat lbl st (margs m) e (a, v).
+Proof. exact instancecheck_acc. Qed.
+Print Assumptions C01_isinstance_true.
+
+Theorem C01_isinstance_false : forall lbl st a v m s s',
+  wf_annot a ->
+  instancecheck false lbl st a v (m :: s) = (Rej, s') ->
+  s' = m :: s /\ forall e, gamma m e -> ~ full_sat lbl st (margs m) e (a, v).
+Proof. exact instancecheck_rej. Qed.
+Print Assumptions C01_isinstance_false.
+
+(* the side condition wf_dims is met by everything the parser produces *)
+Theorem C01_parsed_dims_wellformed : forall s d, parse_dims s = Ok d -> wf_dims d.
+Proof. intros s d H i Hi. exact (parse_dims_ivar_in_range s d H i Hi). Qed.
+Print Assumptions C01_parsed_dims_wellformed.
+
+(* a symbolic axis whose value was computed keeps that value under every consistent assignment *)
+Theorem C01_symbolic_stable : forall sm r args e v,
+  agrees sm r -> eval_sym sm args e = EVal v -> eval_symr r args e = EVal v.
+Proof. exact eval_sym_stable. Qed.
+Print Assumptions C01_symbolic_stable.
+
+(* non-vacuity: "a *#b 3 a+1" on a rank-5 array after a history that bound b *)
+Example C01_nonvacuous :
+  match parse_dims "a *#b 3 a+1" with
+  | Ok d =>
+      let st := [("a+1", EBin OAdd (EVar "a") (EInt 1))] in
+      let m := mkmemo [] [("b", (false, [2; 5]%Z))] [] in
+      wf_dims d /\
+      fst (check_shape None st d [4; 1; 5; 3; 5]%Z m) = COk /\
+      fst (check_shape None st d [4; 3; 5; 3; 5]%Z m) = CFail /\
+      fst (check_shape None st d [4; 3; 4]%Z m) = CFail
+  | Err _ => False
+  end.
+Proof. cbn. split; [intros i Hi; inversion Hi; cbn; auto with arith | repeat split]. Qed.
